@@ -36,6 +36,15 @@ TRUSTED_BASE = [
 ]
 
 
+def trusted_base_for(oblig):
+    used = sorted({a for t in oblig.get("theorems", []) for a in t.get("axioms", [])})
+    tb = list(TRUSTED_BASE)
+    if used:
+        tb[1] = ("axioms: none declared by this development; the theorems of this property depend on the "
+                 "standard-library axiom(s) %s (reported by Print Assumptions on this run)" % ", ".join(used))
+    return tb
+
+
 def setup_impl_path():
     """Make sure `import asynciojobs` resolves to the working tree under test."""
     if sys.path[0] != REPO:
@@ -142,7 +151,11 @@ def coq_statements(pid, names, tmp):
         m = re.search(r"@@BEGIN %s\n(.*?)@@ASSUME %s\n(.*?)@@END %s" % (n, n, n), out, re.S)
         if not m:
             return None, "no output for %s" % n
-        res[n] = (_norm(m.group(1)), _norm(m.group(2)))
+        raw = m.group(2)
+        # axiom names: the lines of the "Axioms:" listing that start in column 0
+        axioms = [l.split(":")[0].strip() for l in raw.split("\n")
+                  if l and not l[0].isspace() and not l.startswith("Axioms") and not l.startswith("Closed under")]
+        res[n] = (_norm(m.group(1)), _norm(raw), axioms)
     return res, ""
 
 
@@ -161,14 +174,13 @@ def check_obligations(pid, tmp):
         return out
     for t in obl["theorems"]:
         n = t["name"]
-        stmt, assum = res[n]
+        stmt, assum, axioms = res[n]
         entry = {"name": n, "assumptions": assum}
         ok = True
         if _norm(t["statement"]) != stmt:
             ok = False
             out["problems"].append("statement of %s differs from the recorded one" % n)
         if assum != "Closed under the global context":
-            axioms = re.findall(r"([\w.']+)\s*:", assum.replace("Axioms:", ""))
             extra = [a for a in axioms if a.split(".")[-1] not in {x.split(".")[-1] for x in ALLOWED_AXIOMS}]
             entry["axioms"] = axioms
             if extra or not axioms:
@@ -183,20 +195,58 @@ def check_obligations(pid, tmp):
 
 # --------------------------------------------------------------------------- model evaluation
 
-def run_driver(cases):
-    """cases: list of lists of ints. Returns list of lists of ints."""
-    if not cases:
-        return []
+CASE_LIMIT = 120000
+
+
+def _big_stack():
+    import resource
+    try:
+        soft, hard = resource.getrlimit(resource.RLIMIT_STACK)
+        resource.setrlimit(resource.RLIMIT_STACK, (hard, hard))
+    except (ValueError, OSError):
+        pass
+
+
+def _run_driver_once(cases):
     data = "\n".join(" ".join(map(str, c)) for c in cases) + "\n"
-    r = subprocess.run([DRIVER], input=data, capture_output=True, text=True, timeout=3000)
+    try:
+        r = subprocess.run([DRIVER], input=data, capture_output=True, text=True, timeout=3000,
+                           preexec_fn=_big_stack)
+    except subprocess.TimeoutExpired:
+        return None
     if r.returncode != 0:
-        raise RuntimeError("driver failed: " + r.stderr[-500:])
+        return None
     lines = r.stdout.split("\n")
     if lines and lines[-1] == "":
         lines.pop()
     if len(lines) != len(cases):
-        raise RuntimeError("driver returned %d lines for %d cases" % (len(lines), len(cases)))
-    return [[int(x) for x in l.split()] for l in lines]
+        return None
+    try:
+        return [[int(x) for x in l.split()] for l in lines]
+    except ValueError:
+        return None
+
+
+def run_driver(cases):
+    """cases: list of lists of ints. Returns list of lists of ints.  A case on which the extracted
+    model cannot be evaluated (stack exhaustion on an absurdly long input, say) yields [0], which
+    every property reads as 'not decodable' = a correspondence break for that case; the other
+    cases are still evaluated."""
+    if not cases:
+        return []
+    if any(len(c) > CASE_LIMIT for c in cases):
+        # an implementation output far beyond anything the model can produce for these inputs
+        res = [None if len(c) <= CASE_LIMIT else [0] for c in cases]
+        rest = run_driver([c for c in cases if len(c) <= CASE_LIMIT])
+        it = iter(rest)
+        return [r if r is not None else next(it) for r in res]
+    out = _run_driver_once(cases)
+    if out is not None:
+        return out
+    if len(cases) == 1:
+        return [[0]]
+    mid = len(cases) // 2
+    return run_driver(cases[:mid]) + run_driver(cases[mid:])
 
 
 def coq_eval(cases, tmp, tag="x"):
@@ -324,7 +374,7 @@ def finish(pid, tier, seed, t0, oblig, scan, build_msg, out, xcheck, level_rule)
         "coverage": {
             "obligations": oblig["obligations"], "discharged": oblig["discharged"],
             "checker_cmd": "sh build.sh (coq_makefile + make, full .vo) ; coqc -Q coq AJ <generated Check/Print Assumptions file for Props/%s.v>" % pid,
-            "trusted_base": TRUSTED_BASE,
+            "trusted_base": trusted_base_for(oblig),
             "theorems": oblig["theorems"],
             "proof_problems": oblig["problems"] + scan + ([] if build_msg == "ok" else [build_msg]),
             "evaluations": out.evaluations,
